@@ -86,6 +86,40 @@ let ask (fields : string list) : string =
   | "A" :: v :: _ -> v
   | _ -> failwith ("bad answer " ^ l)
 
+(* ---------- signature databases ---------- *)
+let sig_of_string s =
+  match String.split_on_char '/' s with
+  | [o; d] -> { sd_owner = guid_of_string o; sd_data = bytes_of_hex d }
+  | _ -> failwith ("bad sig " ^ s)
+let siglist_of_string s =
+  match String.split_on_char '|' s with
+  | [t; ls; hs; sz; hd; sigs] ->
+      { sl_type = guid_of_string t; sl_listsize = n_of_string ls; sl_headersize = n_of_string hs;
+        sl_size = n_of_string sz; sl_header = bytes_of_hex hd; sl_sigs = List.map sig_of_string (split ',' sigs) }
+  | _ -> failwith ("bad siglist " ^ s)
+let db_of_string s = List.map siglist_of_string (split ';' s)
+let obs_decode_of cls rest =
+  match cls, rest with
+  | "ok", [db; reenc] -> Some (db_of_string db, bytes_of_hex reenc)
+  | _ -> None
+let pem_oracle (data : byte list) : byte list option =
+  match ask ["pem"; hex_of_bytes data] with
+  | "-" -> None
+  | h -> Some (bytes_of_hex h)
+let hop_of_string s =
+  match String.split_on_char '~' s with
+  | ["A"; t; o; d] -> HAppend (guid_of_string t, guid_of_string o, bytes_of_hex d)
+  | ["R"; t; o; d] -> HRemove (guid_of_string t, guid_of_string o, bytes_of_hex d)
+  | ["L"; l] -> HAppendList (siglist_of_string l)
+  | ["E"] -> HRecode
+  | ["Q"; t; o; d] -> HQueryEntry (guid_of_string t, guid_of_string o, bytes_of_hex d)
+  | ["X"; l] -> HQueryList (siglist_of_string l)
+  | _ -> failwith ("bad hop " ^ s)
+let hobs_of_string s =
+  match String.split_on_char '~' s with
+  | [ok; db; ans] -> { ho_ok = bool_of_string01 ok; ho_db = db_of_string db; ho_answer = bool_of_string01 ans }
+  | _ -> failwith ("bad hobs " ^ s)
+
 (* ---------- dispatch ---------- *)
 let verdict b = if b then "ok" else "violation"
 
@@ -131,6 +165,21 @@ let run (op : string) (a : string list) : string list =
                            wg_type = n_of_string typ; wg_guid = guid_of_string g;
                            wg_data = bytes_of_hex data } } in
       [verdict (check_write_auth2 a (bytes_of_hex impl))]
+  (* C07 / C08 *)
+  | "c07_decode", bs :: cls :: rest ->
+      let bs = bytes_of_hex bs in
+      [verdict (check_c07 bs (obs_decode_of cls rest)); s01 (decodes bs)]
+  | "c08_decode", bs :: cls :: rest ->
+      let bs = bytes_of_hex bs in
+      [verdict (check_c08 bs (obs_decode_of cls rest)); s01 (decodes_any bs)]
+  (* C09 *)
+  | "db_history", [init; ops; obs] ->
+      let init = db_of_string init in
+      let ops = List.map hop_of_string (split '&' ops) in
+      let obs = List.map hobs_of_string (split '&' obs) in
+      if List.length ops <> List.length obs then ["skip"; "ops/obs length"] else
+      let ((v, i), okc) = run_history pem_oracle init init (List.combine ops obs) N0 N0 in
+      [(match int_of_n v with 0 -> "ok" | 1 -> "violation" | _ -> "mismatch"); string_of_n i; string_of_n okc]
   | _ -> ["skip"; "unknown op " ^ op]
 
 let () =
